@@ -357,11 +357,13 @@ fn is_stop(e: &(dyn std::any::Any + Send)) -> bool {
 }
 
 impl<'c> Runner<'c> {
-	fn fmt_dbg(&self, c: usize) {
+	fn fmt_dbg(&self, c: usize, bomb: Option<usize>) {
 		mark(3);
+		vraw::set_bomb(bomb);
 		let r = catch_unwind(AssertUnwindSafe(|| {
 			let _ = format!("{:?}", self.built.colls[c]);
 		}));
+		vraw::set_bomb(None);
 		mark(4);
 		if let Err(e) = r {
 			std::panic::resume_unwind(e)
@@ -399,7 +401,7 @@ impl<'c> Runner<'c> {
 						log(format!("r{x}={v}{}", if bad { "?" } else { "" }));
 					}
 				}
-				Step::Dbg(c) => self.fmt_dbg(*c),
+				Step::Dbg(c, b) => self.fmt_dbg(*c, *b),
 				Step::GetKey => match ThreadKey::get() {
 					Some(k) => {
 						mark(20);
@@ -577,8 +579,8 @@ impl<'c> Runner<'c> {
 				}
 				None => mark(14),
 			},
-			Stmt::Dbg(c) => {
-				let r = catch_unwind(AssertUnwindSafe(|| self.fmt_dbg(*c)));
+			Stmt::Dbg(c, b) => {
+				let r = catch_unwind(AssertUnwindSafe(|| self.fmt_dbg(*c, *b)));
 				match r {
 					Ok(()) => mark(10),
 					Err(e) => {
